@@ -185,6 +185,8 @@ def main(argv=None):
 def check(run, cfg):
     prop = run.prop
     quick = run.tier == 'quick'
+    import shutil
+    shutil.rmtree(os.path.join(HERE, 'replays', prop), ignore_errors=True)
     known = [k for k in load_known() if k.get('property') == prop and not k.get('fixed')]
     # ---- known-finding regions are excluded from the precondition (DESIGN 3.8) and replayed below
     for k in known:
@@ -215,7 +217,10 @@ def check(run, cfg):
     from dvc import vacuity
     vac = vacuity.check(run, cfg, reports)
     run.evidence_extra['vacuity'] = vac
-    if vac.get('inconsistent'):
+    all_proved = all(r['status'] == 'proved' for r in results)
+    if vac.get('inconsistent') and all_proved:
+        # (after a failed obligation its goal is assumed, which legitimately makes later
+        #  hypotheses contradictory; the guard is meaningful only when everything was proved)
         raise CannotBind('axioms/lemmas are inconsistent: %s' % vac['inconsistent'])
     # ---- triage failures
     not_proved = [(ob, r) for ob, r in zip(obligations, results) if r['status'] != 'proved']
